@@ -3,8 +3,8 @@ CONSTANTS
   Cap = 2
   Procs = {1, 2, 3}
   Prog <- P3
-  MaskedFull = FALSE
+  MaskedFull = TRUE
   StaleCell = FALSE
-  Textbook = TRUE
+  Textbook = FALSE
 INVARIANT LinOK
 CHECK_DEADLOCK FALSE
